@@ -373,7 +373,9 @@ def layout_task(spine, compact, more_out, with_params, symtype, derived):
             interp.contracts[f"sym_metanet.blocks.origins:{k_}.get_flow"] = FlowEvents(log, "origin")
         params = None
         if with_params:
-            params = {"rho_crit": CM.new_symbol(symtype, "rho_crit", 1), "a": CM.new_symbol(symtype, "a", 1)}
+            # per-link symbols with the same display name, declared interleaved
+            params = {"rho_crit_L1": CM.new_symbol(symtype, "rho_crit", 1), "a_L1": CM.new_symbol(symtype, "a", 1),
+                      "rho_crit_L2": CM.new_symbol(symtype, "rho_crit", 1), "a_L2": CM.new_symbol(symtype, "a", 1)}
         others = {"T": T.var("T", T.REAL), "tau": T.var("tau", T.REAL)}
         kwargs = dict(compact=compact, more_out=more_out, parameters=params, **others)
         try:
